@@ -372,7 +372,7 @@ struct Drv
         OPNMIDIplay *p = P(dev);
         int want = which == 0 ? MODE_GM : (which == 1 || which == 4) ? MODE_GS : which == 2 ? MODE_XG : -1;
         int got = (int)p->m_synthMode;
-        if(want >= 0 && got != want) return false;               // C19 judges that; this history cannot be followed any further
+        if(want >= 0 && got != want) { count("mode_after_accepted_switch_not_the_documented_one"); got = want; }   // C19 names that; here the documented mode is assumed and the following note-ons are judged by its rules
         if(got != MODE_GM && got != MODE_GS && got != MODE_XG) return false;
         M.mode = got;
         static const char *nm[] = {"GM-on", "GS-reset", "XG-on", "GM-off", "GS-mode-set"};
